@@ -103,11 +103,13 @@ void AbstractParameterAliasable::aliasParameters(const std::string& p1, const st
     }
   }
   else
-  // We use a small trick here, we test the constraints on the basis of their string description (C++ does not provide a default operator==() :( ).
-  if (param2->hasConstraint() && (param1->getConstraint()->getDescription() != param2->getConstraint()->getDescription()))
+  // Unless both parameters share the very same constraint object, they get the intersection of their constraints.
+  // (The string descriptions only tell whether a warning is worth it: bounds are printed with a few significant digits, so distinct intervals can have the same description.)
+  if (param2->hasConstraint() && param1->getConstraint() != param2->getConstraint())
   {
     std::shared_ptr<ConstraintInterface> nc(*param2->getConstraint() & *param1->getConstraint());
-    ApplicationTools::displayWarning("Aliasing parameter " + p2 + " to " + p1 + " with different constraints. They get the intersection of both constraints : " + nc->getDescription());
+    if (param1->getConstraint()->getDescription() != param2->getConstraint()->getDescription())
+      ApplicationTools::displayWarning("Aliasing parameter " + p2 + " to " + p1 + " with different constraints. They get the intersection of both constraints : " + nc->getDescription());
 
     param2->setConstraint(nc);
     param1->setConstraint(nc);
